@@ -275,6 +275,14 @@ fn irr(rng: &mut Rng, ctx: &mut Ctx) {
                 let chunks: Vec<&[u8]> = pay.chunks(512).collect(); let mut blocks = vec![];
                 for (ci, ch) in chunks.iter().enumerate() { let mut b = vec![0x10u8]; b.extend_from_slice(ch); b.extend(std::iter::repeat(0u8).take(512 - ch.len())); b.extend((ch.len() as u16).to_be_bytes()); b.push(code); b.push((ci + 1 == chunks.len()) as u8); blocks.push(b); }
                 body.splice(i..i + 1, blocks); tags.push(format!("wrapped:{:02x}", code)); } }
+        // aligned spans: one more unknown event sized so that the bytes between Game Start and Game End are an exact multiple of a typical buffer
+        // size (what a reader that skips or copies that span in chunks sees as "no remainder")
+        let mut aligned = 0usize;
+        if k % 8 == 3 { let a = [4096usize, 8192, 65536, 16384, 32768, 65536, 131072, 8192][(k / 8) % 8]; let span: usize = body.iter().map(|e| e.len()).sum();
+            let mut t = (a - span % a) % a; if t == 1 { t += a; }
+            let code = [0x42u8, 0x43, 0x44][(k / 8) % 3];
+            if t >= 2 && t - 1 <= 65535 && !r.extra_payloads.iter().any(|x| x.0 == code) { let sz = (t - 1) as u16; r.extra_payloads.push((code, sz)); if what == 5 { sizes.push((code, sz)); }
+                let mut e = vec![code]; e.extend(rng.bytes(sz as usize)); let at = if (k / 8) % 2 == 0 { body.len() } else { gecko_events(&r).len().min(body.len()) }; body.insert(at, e); aligned = a; tags.push(format!("aligned-span:{}", a)); } }
         let mut junk = vec![];
         if (what == 1 || what == 4) && r.end.is_some() && !r.double_end { junk = { let n = [1usize, 2, 3, 5, 6, 7, 8, 12, 1, 40][(rng.next() % 10) as usize]; rng.bytes(n) }; if junk.len() == 1 + r.end.as_ref().unwrap().len() && junk[0] == 0x39 { junk[0] = 0x38; } }
         if what != 5 { sizes = table(&r, &pad); } // (extra_payloads were added to `r` above)
@@ -307,6 +315,11 @@ fn irr(rng: &mut Rng, ctx: &mut Ctx) {
                 if let (Some(sg), Some(g)) = (&sg, &g) { if start_json(&sg.start) != start_json(&g.start) || end_json(&sg.end) != end_json(&g.end) || sg.metadata != g.metadata { c.fail("C10", "skip-frames start/end/metadata differ from the full parse (replay with unknown events / permuted bodies)"); } } }
             ctx.push(c);
         }
+        if aligned > 0 && r.end.is_some() { let (bsl, _) = read_line(&base, true, false);
+            for hsh in [true, false] { let (sl, _) = read_line(&x, true, hsh);
+                let mut c = Case::new(read_cmd(true, hsh, &x), sl.clone()); c.tags = vec![format!("aligned-skip hash{}", hsh as u8)];
+                if junk.is_empty() && dump::strip_hash(&sl) != bsl { let m = format!("skip-frames read (hash={}) of a replay whose frame span is a multiple of {} bytes differs from the one of the regular replay: {} vs {}", hsh, aligned, &sl[..sl.len().min(120)], &bsl[..bsl.len().min(120)]); c.fail("C10", m.clone()); if hsh { c.fail("C11", m); } }
+                ctx.push(c); } }
         // the same replay with raw length 0 in the header (a recorder that never went back to fill it in): events are read up to Game End, then the
         // metadata element — same game
         if k % 7 == 5 && r.end.is_some() && !r.double_end && junk.is_empty() { let mut x0 = x.clone(); x0[11..15].copy_from_slice(&[0, 0, 0, 0]);
@@ -396,6 +409,22 @@ fn maxver(rng: &mut Rng, ctx: &mut Ctx) {
                 let pw = std::panic::catch_unwind(std::panic::AssertUnwindSafe(|| { let mut buf = vec![]; peppi::io::peppi::write(&mut buf, g, None).map_err(|e| e.to_string()) }));
                 match pw { Err(_) => c.fail("C09", format!(".slpp writer panicked for version {:?}", v)), Ok(Ok(())) => if exp_refuse { c.fail("C09", format!(".slpp writer accepted version {:?} > 3.16.0", v)); }, Ok(Err(e)) => if !exp_refuse { c.fail("C09", format!(".slpp writer refused version {:?} <= 3.16.0: {}", v, e)); } } } }
         ctx.push(c);
+        // the verdict depends on the version alone: the same game with other metadata in memory (none, an empty map, no `startAt`, `startAt` of
+        // another type, nested maps only) is refused / accepted all the same, without a panic
+        if k % 2 == 1 { if let (Some(g0), Some(g0b)) = (read_line(&b, false, false).1, read_line(&b, false, false).1) { let shape = (k / 2 + k / 10) % 5;
+            let md: Option<serde_json::Map<String, serde_json::Value>> = match shape { 0 => None, 1 => Some(serde_json::Map::new()),
+                2 => { let mut m = serde_json::Map::new(); m.insert("playedOn".into(), "dolphin".into()); Some(m) }
+                3 => { let mut m = serde_json::Map::new(); m.insert("startAt".into(), serde_json::Value::from(5)); m.insert("lastFrame".into(), serde_json::Value::from(-1)); Some(m) }
+                _ => { let mut m = serde_json::Map::new(); m.insert("players".into(), serde_json::Value::Object(serde_json::Map::new())); Some(m) } };
+            let mut c = Case::new(format!("skipcase maxver-metadata {:?} {}", v, shape), String::new()); c.tags = vec![format!("metadata-shape{} refuse{}", shape, exp_refuse as u8)];
+            let mut g1 = g0b; g1.metadata = md.clone();
+            let sw = std::panic::catch_unwind(std::panic::AssertUnwindSafe(|| { let mut buf = vec![]; slippi::write(&mut buf, &g1).is_ok() }));
+            let mut g2 = g0; g2.metadata = md;
+            let pw = std::panic::catch_unwind(std::panic::AssertUnwindSafe(|| { let mut buf = vec![]; peppi::io::peppi::write(&mut buf, g2, None).is_ok() }));
+            c.impl_out = format!("{:?} {:?}", sw.as_ref().ok(), pw.as_ref().ok());
+            for (name, res) in [(".slp", &sw), (".slpp", &pw)] { match res { Err(_) => c.fail("C09", format!("{} writer panics on a game of version {:?} with metadata shape {}", name, v, shape)),
+                Ok(acc) => if *acc == exp_refuse { c.fail("C09", format!("{} writer {} version {:?} (metadata shape {})", name, if *acc { "accepted" } else { "refused" }, v, shape)); } } }
+            ctx.push(c); } }
         // games the writers cannot serialise for other reasons (no occupied port with frames: the Arrow export panics, the recorded finding D6; a Gecko list
         // that is not a whole number of blocks) are still *refused* when they are newer than the maximum: the version is looked at first
         if exp_refuse && k % 2 == 0 { let r0 = simple(v, &[], 2, &[], rng); let b0 = encode(&r0);
@@ -480,7 +509,8 @@ pub fn read_line_chunked(b: &[u8], skip: bool, hash: bool, plan: Vec<usize>) -> 
 
 /// a sink that accepts at most `k` bytes per `write` call (pipes, sockets), can be interrupted, and can fail at a chosen call
 pub struct ShortSink { pub out: Vec<u8>, k: usize, call: usize, fail_at: Option<usize>, interrupt_every: usize }
-impl ShortSink { pub fn new(k: usize, fail_at: Option<usize>, interrupt_every: usize) -> Self { ShortSink { out: vec![], k: k.max(1), call: 0, fail_at, interrupt_every } } }
+impl ShortSink { pub fn new(k: usize, fail_at: Option<usize>, interrupt_every: usize) -> Self { ShortSink { out: vec![], k: k.max(1), call: 0, fail_at, interrupt_every } }
+    pub fn calls(&self) -> usize { self.call } }
 impl std::io::Write for ShortSink {
     fn write(&mut self, buf: &[u8]) -> std::io::Result<usize> {
         let call = self.call; self.call += 1;
